@@ -105,10 +105,13 @@ def roles(fn):
     return {pat_binds(fn["params"][1])[0][1]: "p", pat_binds(fn["params"][2])[0][1]: "a"}
 
 
-def flat_of(n, role):
-    """`X.get_flat()` with X a role parameter -> role"""
+def flat_of(n, role, table=None):
+    """`X.get_flat()` with X a role parameter (possibly through immutable temporaries) -> role"""
     n = strip(n)
-    if n.get("k") == "mcall" and n["callee"] == "tensor::Tensor::get_flat":
+    if table:
+        from ..hir import resolve
+        n = resolve(n, table)
+    if n is not None and n.get("k") == "mcall" and n["callee"] == "tensor::Tensor::get_flat":
         return role.get(e4.local_hid(n["recv"]))
     return None
 
@@ -117,6 +120,8 @@ class LossHook:
     def __init__(self, c, fn, mode):
         self.c, self.fn, self.mode = c, fn, mode
         self.role = roles(fn)
+        from ..hir import let_table
+        self.table = let_table(fn["body"])
         self.summand = None
         self.closure = None
         self.n_sums = 0
@@ -125,7 +130,7 @@ class LossHook:
         if n.get("k") != "mcall":
             return None
         if n["name"] == "len":
-            r = flat_of(n["recv"], self.role)
+            r = flat_of(n["recv"], self.role, self.table)
             if r is not None:
                 return N
             return None
@@ -142,7 +147,7 @@ class LossHook:
             it = strip(side)
             if not (it.get("k") == "mcall" and it["name"] == "iter"):
                 raise ValueError("unrecognised pair source (adaptor `%s`)" % it.get("name"))
-            r = flat_of(it["recv"], self.role)
+            r = flat_of(it["recv"], self.role, self.table)
             if r is None:
                 raise ValueError("pair source is not target/prediction.get_flat()")
             srcs.append(r)
@@ -335,40 +340,56 @@ def r3(ctx, kind, out, sems):
 
 
 def r4(ctx, kind, fn):
+    """clamp handling, decided on the E6 summary of `loss`: on every non-panicking path the result is (loss, gradient) when
+    self.clamp is None and (loss, gradient.clamp(min, max)) with (min, max) the payload of Some - the same loss and the same
+    unclamped gradient in both cases (match / if let / let-else spellings alike)."""
+    from .. import e6
     c = ctx.crate
-    b = fn["body"]
-    while b.get("k") == "blk":
-        b = b["b"]
-    tail = strip(b["tail"]) if b["tail"] is not None else None
-    rets = [x for x in walk(fn["body"], into_closures=False) if x.get("k") == "ret"]
-    where = c.loc(fn, tail) if tail else c.loc(fn)
     inst = kind + ":clamp"
-    if tail is None or tail.get("k") != "match" or rets or pretty(strip(tail["scrut"])) != "self.clamp":
-        ctx.bad("R06.4", inst, "return-does-not-go-through-match-self.clamp", where, short(pretty(tail), 120) if tail else "")
+    where = c.loc(fn)
+    E = e6.Exec(c, fn)
+    paths = [p for p in E.run_fn() if p.exit is None or p.exit[0] == "return"]
+    CL = ("field", ("p", "self"), "clamp")
+    groups = {}
+    ok_shape = bool(paths)
+    for p in paths:
+        val = p.val if p.exit is None else p.exit[1]
+        pol = None
+        rest = []
+        for (t, b) in p.pc:
+            if isinstance(t, tuple) and t[0] == "is" and t[1] == CL:
+                is_some = (t[2] == "Option::Some") == b
+                pol = is_some
+            else:
+                rest.append((t, b))
+        if pol is None or not (isinstance(val, tuple) and val[0] == "tup" and len(val[1]) == 2):
+            ok_shape = False
+            continue
+        groups.setdefault(repr(sorted(rest, key=repr)), {})[pol] = val
+    if not ok_shape:
+        ctx.bad("R06.4", inst, "return-does-not-go-through-match-self.clamp", where,
+                "some non-panicking path of %s::loss returns without deciding on self.clamp, or does not return a (loss, gradient) pair" % kind)
         return
-    ok_some = ok_none = False
-    for arm in tail["arms"]:
-        vp, binds = e4.arm_variant(arm)
-        body = strip(arm["body"])
-        if vp.endswith("Some") and len(binds) == 2 and body.get("k") == "tup" and len(body["xs"]) == 2:
-            g = strip(body["xs"][1])
-            ok_some = (pretty(strip(body["xs"][0])) == "loss" and g.get("k") == "mcall" and g["callee"] == "tensor::Tensor::clamp"
-                       and pretty(strip(g["recv"])) == "gradient" and [e4.local_hid(x) for x in g["args"]] == [binds[0][1], binds[1][1]])
-            if not ok_some:
-                ctx.bad("R06.4", inst + ":some", "clamp-arm:" + short(pretty(body), 80), c.loc(fn, body),
-                        "Some((min,max)) arm must return (loss, gradient.clamp(min, max)); found %s" % short(pretty(body), 120))
-        elif vp.endswith("None") and body.get("k") == "tup":
-            ok_none = [pretty(strip(x)) for x in body["xs"]] == ["loss", "gradient"]
-            if not ok_none:
-                ctx.bad("R06.4", inst + ":none", "none-arm:" + short(pretty(body), 80), c.loc(fn, body), "None arm must return (loss, gradient)")
-    if ok_some:
-        ctx.ok("R06.4", inst + ":some", "Some((min,max)) => (loss, gradient.clamp(min, max))", where)
-    if ok_none:
-        ctx.ok("R06.4", inst + ":none", "None => (loss, gradient)", where)
-    if not (ok_some or any(o["instance"] == inst + ":some" for o in ctx.obligations)):
-        ctx.bad("R06.4", inst + ":some", "no-some-arm", where, "")
-    if not (ok_none or any(o["instance"] == inst + ":none" for o in ctx.obligations)):
-        ctx.bad("R06.4", inst + ":none", "no-none-arm", where, "")
+    ok_some = ok_none = bool(groups)
+    why = ""
+    for key, g in groups.items():
+        if True not in g or False not in g:
+            ok_some = ok_none = False
+            why = "a path decides only one case of self.clamp"
+            continue
+        vs, vn = g[True], g[False]
+        lo = e6.mk_proj(("payload", CL, "Option::Some", 0), 0)
+        hi = e6.mk_proj(("payload", CL, "Option::Some", 0), 1)
+        a = e6.is_call(vs[1][1], "clamp", 3)
+        if not (vs[1][0] == vn[1][0] and a is not None and a[0] == vn[1][1] and a[1] == lo and a[2] == hi):
+            ok_some = False
+            why = "Some: (%s, %s)" % (e6.show(vs[1][0], 2)[:60], e6.show(vs[1][1], 2)[:120])
+        if e6.is_call(vn[1][1], "clamp") is not None:
+            ok_none = False
+            why = "None: gradient is clamped"
+    ctx.check("R06.4", inst + ":some", ok_some, "clamp-arm:" + short(why, 80), where, "Some((min,max)) => (loss, gradient.clamp(min, max))",
+              "with a configured clamp %s::loss must return (loss, gradient.clamp(min, max)) for the same loss and gradient as without: %s" % (kind, why))
+    ctx.check("R06.4", inst + ":none", ok_none, "none-arm:" + short(why, 80), where, "None => (loss, gradient)")
 
 
 def r5(ctx, kind, fn, L, out):
@@ -424,7 +445,11 @@ def r5(ctx, kind, fn, L, out):
         for s in b["stmts"]:
             if s is L:
                 break
-            if s.get("k") == "let":
+            if s.get("k") == "let" and s["pat"].get("k") == "bind":
+                ty = (c.types[s["pat"]["t"]] or "").lstrip("&") if s["pat"].get("t") is not None else ""
+                if ty in ("f32", "f64", "usize", "i32", "u64", "bool"):
+                    ev.stmt(s)      # scalar temporaries; tensor-valued temporaries (`let flat = target.get_flat()`) carry no number
+            elif s.get("k") == "let":
                 ev.stmt(s)
         res = ev.eval(L["init"])
     except ValueError as e:
